@@ -398,6 +398,43 @@ def handover(rep, prog, rule="HANDOVER"):
                           "transition: a rule whose previous transition falls before it skips recorded transitions", loc)
 
 
+def handover_civil(rep, prog, rule="HANDOVER"):
+    """the civil-time side of the hand-over from recorded transitions to the footer's POSIX rule"""
+    from .guards import guards, strip_not
+    rep.rule(rule, "Tzif::to_ambiguous_kind hands a civil datetime at or after the last recorded transition to the footer's POSIX "
+                   "rule, which is evaluated as if it had always applied; the rule only governs instants at or after that "
+                   "transition, so a candidate offset it reports is accepted only after the instant it denotes has been tested "
+                   "against the recorded transitions (a guard that depends on both the POSIX answer and timestamps() / "
+                   "to_local_time_type). Returning the POSIX answer unexamined reports folds that the recorded data does not "
+                   "have when the last recorded transition coincides with a rule transition but is a no-op (slim "
+                   "America/Nuuk, 2023-10-29)")
+    f = prog.fns.get("jiff::tz::tzif::Tzif::<STR, ABBREV, TYPES, TIMESTAMPS, STARTS, ENDS, INFOS>::to_ambiguous_kind")
+    if f is None:
+        rep.anchor_missing("tz::tzif::Tzif::to_ambiguous_kind")
+        return
+    T = Terms(f)
+    cfg = mir.CFG(f)
+    is_posix = lambda y: is_call(y, "::to_ambiguous_kind") and "posix" in y[1].lower()
+    calls = [(bi, t) for bi, t in mir.iter_calls(f) if t.get("path", "").endswith("::to_ambiguous_kind") and "posix" in t.get("path", "").lower()]
+    key = "civil: POSIX answer tested against the recorded transitions"
+    if not calls:
+        rep.violation(rule, key, "anchor missing: to_ambiguous_kind no longer consults the POSIX rule", f.loc())
+        return
+    tested = []
+    for bi in range(len(f.blocks)):
+        for (c, truth, _sb) in guards(f, cfg, T, bi):
+            w = list(walk(c))
+            if any(is_posix(y) for y in w) and any(is_call(y, "::to_local_time_type") or is_call(y, "::timestamps") for y in w):
+                tested.append(bi)
+    for bi, t in calls:
+        loc = "%s:%s" % (t["span"]["file"], t["span"]["line"])
+        if tested:
+            rep.ok(rule, key, how="%d block(s) guarded by a test of the POSIX answer against the recorded transitions" % len(set(tested)), loc=loc)
+        else:
+            rep.violation(rule, key, "the POSIX rule's answer is returned without testing its candidate instants against the last recorded "
+                          "transition: a fold (or offset) the rule reports for an instant before that transition contradicts the recorded data", loc)
+
+
 def floor_print(rep, prog, rule="FLOOR-PRINT"):
     """%s is the number of whole seconds since the epoch in the C library's sense: the floor"""
     rep.rule(rule, "a strtime formatter that prints the whole-second view of a Timestamp obtained by truncation (as_second) branches on "
